@@ -440,7 +440,9 @@ func (nc *nestCons) ladder() []int {
 func (nc *nestCons) computeLadder() []int {
 	max := maxDepth(nc.gen)
 	set := map[int]bool{max: true}
-	for _, d := range []int{1, 2, 3, 10, 100, 1000, 10000} {
+	// decades, plus both sides of every power of two that an operand width,
+	// a stack or table index, or a documented limit (255 arguments) may sit at
+	for _, d := range []int{1, 2, 3, 10, 100, 1000, 10000, 15, 16, 17, 31, 32, 33, 63, 64, 65, 127, 128, 129, 254, 255, 256, 257, 511, 512, 513, 1023, 1024, 1025, 4095, 4096, 4097, 16383, 16384, 16385, 32767, 32768, 32769} {
 		if d <= max {
 			set[d] = true
 		}
